@@ -21,7 +21,7 @@ ASSUMPTIONS = [
 ]
 MONITORS = "closure(dest) evaluated at every intermediate destination state via FaultyFS.after_put / audit hook, plus end-state and retry checks"
 REQUIRED_COUNTERS = [
-    "scenarios_destination_of_other_md5_flavour", "missing_on_both_sides_rounds_with_repairing_status_hook", "scenarios_with_verify", "missing_on_both_sides_rounds", "wide_directory_scenarios", "dir_read_fault_rounds", "dir_listing_reads_failed", "source_index_rounds", "index_history_rounds", "source_vanish_rounds", "rounds", "states_observed", "rounds_with_failures", "shared_file_failure_rounds", "retries", "rounds_with_index",
+    "scenarios_with_legacy_md5_stores", "scenarios_destination_of_other_md5_flavour", "missing_on_both_sides_rounds_with_repairing_status_hook", "scenarios_with_verify", "missing_on_both_sides_rounds", "wide_directory_scenarios", "dir_read_fault_rounds", "dir_listing_reads_failed", "source_index_rounds", "index_history_rounds", "source_vanish_rounds", "rounds", "states_observed", "rounds_with_failures", "shared_file_failure_rounds", "retries", "rounds_with_index",
     "dirs_withheld", "exhaustive_scenarios", "crash_children",
 ]
 EXHAUSTIVE = {"quick": False, "thorough": False}
@@ -46,7 +46,11 @@ def run_shard(ctx):
         def one(case=case, rng=rng):
             d = ctx.fresh("t")
             wide = rng.choice([257, 300, 420] if ctx.tier == "quick" else [257, 300, 520, 700]) if case in wide_cases else 0
-            sc = Scenario(ctx, rng, d, ntrees=rng.choice([1, 2]) if wide else rng.choice([1, 2, 2, 3, 4]), wide=wide)
+            legacy = (not wide) and rng.random() < 0.1
+            sc = Scenario(ctx, rng, d, ntrees=rng.choice([1, 2]) if wide else rng.choice([1, 2, 2, 3, 4]), wide=wide, legacy=legacy)
+            if legacy:
+                # both stores (and the ids of the request) use the text-normalising md5 of old repositories
+                res.count("scenarios_with_legacy_md5_stores")
             if wide:
                 res.count("wide_directory_scenarios")
             expanded = rng.random() < 0.4
@@ -55,7 +59,7 @@ def run_shard(ctx):
             verify_opt = {"verify": True} if rng.random() < 0.3 else {}
             if verify_opt:
                 res.count("scenarios_with_verify")
-            if not wide and rng.random() < 0.12:
+            if not wide and not legacy and rng.random() < 0.12:
                 # the destination is a store of the other md5 flavour (its configured hash name differs from the source's)
                 sc.dest_cfg = {"hash_name": "md5-dos2unix"}
                 sc.dest = sc._mk_dest()
@@ -292,7 +296,7 @@ def run_shard(ctx):
                 res.count("index_history_rounds")
 
                 def req(t):
-                    return {t["hi"]} | {env.HI("md5", v) for v in t["listing"].values()}
+                    return {t["hi"]} | {env.HI(sc.algo, v) for v in t["listing"].values()}
 
                 _transfer(sc, req(A), True, jobs, index)
                 for o in [A["oid"], *set(A["listing"].values())]:
